@@ -23,7 +23,7 @@ PROPS = {
 PROPS["C01"] = {
     "witness_fns": {"stdext_groupingmap": ["insert", "end_group", "begin_group"]},
     "witness_always": ["stdlib_scoping"],
-    "witness_bound": {"stdlib_scoping": "real VM + full stdlib vs a stack-of-snapshots model: every program of <= 3 operations, of 4 operations opening a group in the first two, of 5 starting with two nested groups (thorough: all 345k programs of <= 5) over 23 operations: {, }, local/global \\count, \\advance, \\countdef alias, \\def of a control sequence and of an ACTIVE character, \\def behind several prefixes (\\long, \\long\\global, \\global\\long\\outer, \\outer\\long\\global), \\let, \\catcode, \\globaldefs in {1,-1,0}; all values read after every step"},
+    "witness_bound": {"stdlib_scoping": "real VM + full stdlib vs a stack-of-snapshots model: every program of <= 3 operations, of 4 operations opening a group in the first two, of 5 starting with two nested groups (thorough: all 345k programs of <= 5) over 25 operations: {, }, local/global \\count, \\advance, \\countdef alias, \\def of a control sequence and of an ACTIVE character, \\def behind several prefixes (\\long, \\long\\global, \\global\\long\\outer, \\outer\\long\\global), \\let (also of a name to itself), \\catcode, \\globaldefs in {1,-1,0}; separately the CURRENT FONT over every history of <= 6 steps of {, }, three local and one \\global font selector; all values read after every step"},
     "level": "proof",
     "verus": ["stdext_groupingmap", "texlang_savestack", "texlang_cmdmap", "texlang_vmgroups", "stdlib_prefix"],
     "kani": [],
@@ -168,7 +168,7 @@ PROPS["C09"] = {
     "kani": [],
     "witness_always": ["texlang_parse_num", "stdlib_totality"],
     "witness_fns": {"texlang_parse_num": ["parse_impl", "parse_constant", "scan_dimen"]},
-    "witness_bound": {"stdlib_totality": "real VM + stdlib: 9 extreme \\count x 26 uses, 7 extreme \\dimen x 20 uses, \\the on 7 kinds of non-variables, 24 erroring programs incl. non-ASCII lines, each in all four interaction modes and by default (error rendered to text); primitive grid: each of 51 installed primitives x 50 argument shapes x {batch mode, default} and every ordered pair of primitives (7701 programs); 15000 (thorough: 120000) pseudo-random token soups of <= 10 tokens over a 68-word vocabulary (primitives, three macros, braces, numbers at the limits, units, #, ~, non-ASCII) in batch mode: success or structured error, never a panic", "texlang_parse_num": "real VM scanners on numbers at and beyond every limit (i32 boundaries in 3 radices, dimensions at +-2^30 sp, character codes incl. surrogates): value or recoverable error, never a panic"},
+    "witness_bound": {"stdlib_totality": "real VM + stdlib: 9 extreme \\count x 26 uses, 7 extreme \\dimen x 20 uses, \\the on 7 kinds of non-variables, 30 erroring programs incl. non-ASCII lines and inputs that END inside a construct after multi-byte lines, each in all four interaction modes and by default (error rendered to text); primitive grid: each of 51 installed primitives x 59 argument shapes x {batch mode, default}, every ordered pair of primitives, and every primitive followed by \\noexpand / \\expandafter and a primitive or macro (14025 programs); 15000 (thorough: 120000) pseudo-random token soups of <= 10 tokens over a 68-word vocabulary (primitives, three macros, braces, numbers at the limits, units, #, ~, non-ASCII) in batch mode: success or structured error, never a panic", "texlang_parse_num": "real VM scanners on numbers at and beyond every limit (i32 boundaries in 3 radices, dimensions at +-2^30 sp, character codes incl. surrogates): value or recoverable error, never a panic"},
     "unverified_callers": [
         "FUNCTIONS UNDER CONTRACT ONLY: the safety obligations (no overflow, out-of-bounds, failed unwrap/expect, unreachable!, division by zero, for all inputs meeting the stated precondition) of the functions listed in coverage.functions_under_contract. NOT covered: VM::run_impl, the.rs, error rendering (error/display.rs), filelocation.rs, every primitive not listed - 'never panics' is NOT claimed for the interpreter as a whole",
         "shutdown-protocol consistency (ShutdownStatus transitions) is a whole-history property of arbitrary function-pointer callees: not decided",
